@@ -373,6 +373,11 @@ class BehavioralRTLIRTypeCheckVisitorL2( BehavioralRTLIRTypeCheckVisitorL1 ):
 
     try:
       # Both sides are constant expressions
+      # Only fold (and re-type to the minimal width of the value) when the
+      # result is implicitly sized: an explicitly sized constant such as
+      # Bits8(3) + 1 is a Bits8 at run time, not a 3-bit value.
+      if node._is_explicit:
+        raise AttributeError
       l_val = node.left._value
       r_val = node.right._value
       node._value = s.eval_const_binop( l_val, node.op, r_val )
